@@ -36,6 +36,10 @@ H = [  # (file, old, new, what)
     (RUN, "        testRunner = self._get_runner()\n        self.result = testRunner.run(self.test)", "        runner = self._get_runner()\n        self.result = runner.run(self.test)", 'runTests: local renamed'),
     (REAL, "    def stop(self):\n        return self.decorated.stop()\n", "    def stop(self):\n        \"\"\"Ask the decorated result to stop.\"\"\"\n        return self.decorated.stop()\n", 'TestResultDecorator.stop: docstring'),
     (RT, "        try:\n            e = exc_info[1]\n            self.case.onException(exc_info, tb_label=tb_label)\n        finally:\n            del exc_info", "        try:\n            exc = exc_info[1]\n            self.case.onException(exc_info, tb_label=tb_label)\n        finally:\n            del exc_info", None),   # needs the follow-up below
+    (REAL, '        return not (self.errors or self.failures or self.unexpectedSuccesses)\n', '        return not self._problems()\n\n    def _problems(self):\n        return self.errors or self.failures or self.unexpectedSuccesses\n', 'wasSuccessful: pure helper extracted'),
+    (REAL, '        return any(result.shouldStop for result in self._results)\n', '        return any(self._stop_flags())\n\n    def _stop_flags(self):\n        return (result.shouldStop for result in self._results)\n', 'Multi.shouldStop: pure helper extracted'),
+    (REAL, '        return getattr(self.decorated, "failfast", self._failfast)\n', '        return self._target_failfast()\n\n    def _target_failfast(self):\n        return getattr(self.decorated, "failfast", self._failfast)\n', 'ETOD.failfast: pure helper extracted'),
+    (TC, '            full_name = "%s-%d" % (name, suffix)\n            suffix += 1\n        self.addDetail(full_name, content_object)\n', '            full_name = self._numbered(name, suffix)\n            suffix += 1\n        self.addDetail(full_name, content_object)\n\n    def _numbered(self, base, n):\n        return "%s-%d" % (base, n)\n', 'addDetailUniqueName: pure helper extracted'),
 ]
 M = [
     (REAL, "        self.errors.append((test, self._err_details_to_string(test, err, details)))\n        if self.failfast:\n            self.stop()\n", "        if self.failfast:\n            self.stop()\n        self.errors.append((test, self._err_details_to_string(test, err, details)))\n", 'addError: failfast test before the append'),
@@ -54,6 +58,10 @@ M = [
     (REAL, "    def stop(self):\n        return self.decorated.stop()\n", "    def stop(self):\n        return self.decorated.shouldStop\n", 'TestResultDecorator.stop does not stop'),
     (REAL, "        super().startTest(test)\n        self.tags(self._new_tags, self._gone_tags)", "        super().startTest(test)\n        if self._new_tags:\n            self.tags(self._new_tags, self._gone_tags)", 'Tagger.startTest: conditional tags'),
     (REAL, "            if details is not None:\n                try:\n                    return self.decorated.addFailure(test, details=details)\n                except TypeError:\n                    # have to convert\n                    err = self._details_to_exc_info(details)\n            return self.decorated.addFailure(test, err)", "            if details is not None:\n                err = self._details_to_exc_info(details)\n            return self.decorated.addFailure(test, err)", 'ETOD.addFailure: details never tried'),
+    (REAL, '        return not (self.errors or self.failures or self.unexpectedSuccesses)\n', '        return not self._problems()\n\n    def _problems(self):\n        return self.errors or self.failures\n', 'wasSuccessful: extracted helper drops a counter'),
+    (TC, '            full_name = "%s-%d" % (name, suffix)\n            suffix += 1\n        self.addDetail(full_name, content_object)\n', '            full_name = self._numbered(name, suffix)\n            suffix += 1\n        self.addDetail(full_name, content_object)\n\n    def _numbered(self, base, n):\n        return "%s_%d" % (base, n)\n', 'addDetailUniqueName: extracted helper formats differently'),
+    (REAL, '        return any(result.shouldStop for result in self._results)\n', '        return any(self._stop_flags())\n\n    def _stop_flags(self):\n        return [result.shouldStop for result in self._results[:1]]\n', 'Multi.shouldStop: extracted helper looks at the first target only'),
+    (REAL, '        return getattr(self.decorated, "failfast", self._failfast)\n', '        return self._target_failfast()\n\n    def _target_failfast(self):\n        self._failfast = getattr(self.decorated, "failfast", self._failfast)\n        return self._failfast\n', 'ETOD.failfast: extracted helper has an effect'),
 ]
 
 
